@@ -73,6 +73,10 @@ func (x *toks) attrVal(pa *packet.PathAttribute) error {
 	case uint8:
 		x.add(1, uint64(v))
 	case *types.ASPath:
+		if v == nil {
+			x.add(13)
+			break
+		}
 		x.add(2, uint64(len(*v)))
 		for _, s := range *v {
 			x.add(uint64(s.Type), uint64(len(s.ASNs)))
@@ -88,16 +92,28 @@ func (x *toks) attrVal(pa *packet.PathAttribute) error {
 	case types.Aggregator:
 		x.add(5, uint64(v.ASN), uint64(v.Address))
 	case *types.Communities:
+		if v == nil {
+			x.add(13)
+			break
+		}
 		x.add(7, uint64(len(*v)))
 		for _, c := range *v {
 			x.add(uint64(c))
 		}
 	case *types.LargeCommunities:
+		if v == nil {
+			x.add(13)
+			break
+		}
 		x.add(8, uint64(len(*v)))
 		for _, c := range *v {
 			x.add(uint64(c.GlobalAdministrator), uint64(c.DataPart1), uint64(c.DataPart2))
 		}
 	case *types.ClusterList:
+		if v == nil {
+			x.add(13)
+			break
+		}
 		x.add(9, uint64(len(*v)))
 		for _, c := range *v {
 			x.add(uint64(c))
